@@ -700,6 +700,7 @@ def run(check):
     check.regen(['numtypes', 'tokens', 'regexes'])
     check.check_sources()
     check.prove('Props.C08', THEOREMS)
+    check.prove('Props.C08_int', ['C08_bounded_plus_sign'])
     check.prove('Props.C08_dt', THEOREMS_DT)
     check.prove('Props.C08_dur', THEOREMS_DUR)
     check.prove('Props.C08_bin', THEOREMS_BIN)
@@ -717,6 +718,9 @@ def run(check):
     c08_ext.family_decimal(check, tier, observe, xsd_ok)
     c08_ext.family_uuid(check, tier, observe, xsd_ok)
     c08_ext.family_regex(check, tier)
+    c08_ext.oracle_fraction_in_lex(check, tier, observe, xsd_ok)
+    c08_ext.oracle_custom_binary_encoding(check, tier, observe, xsd_ok)
+    c08_ext.oracle_plus_sign_integers(check, tier, observe, xsd_ok, INT_TYPES)
     family_other(check, tier)
     lib.flush_correspondences(check)
     return check.finish()
